@@ -34,8 +34,10 @@ def cells(obj):
         if isinstance(o, ATOMS) or callable(o):
             return
         if isinstance(o, (tuple, frozenset)):
+            # a dict inside an argument tuple (the keyword arguments of an arb_func segment) is handed on by
+            # copy() / + as it is; no method writes into it (changeArg replaces the tuple): frozen, like a filter dict
             for x in o:
-                visit(x, None)
+                visit(x, "filter" if isinstance(x, dict) else None)
             return
         if id(o) in seen:
             return
